@@ -15,6 +15,8 @@ import (
 	"sync/atomic"
 	"time"
 
+	"github.com/kubewharf/kubegateway/pkg/clusters"
+
 	lib "verifharness/c03lib"
 	"verifharness/rig"
 )
@@ -191,6 +193,52 @@ func raceChild(spec string) {
 	stopPickers()
 	close(stopFlap)
 	<-flapDone
+	// a denser variant of the same for a second: three flapping servers, 16 goroutines whose requests name exactly those
+	// (a policy whose subset is the flapping servers): every Pop() reads their status while it is being written
+	if n >= 5 {
+		stop2 := make(chan struct{})
+		var wg2 sync.WaitGroup
+		flapNames := []string{rig.UnHex(names[2]), rig.UnHex(names[3]), rig.UnHex(names[4])}
+		for _, fn := range flapNames {
+			wg2.Add(1)
+			go func(fn string) {
+				defer wg2.Done()
+				e, ok := w.CI.Endpoints.Load(fn)
+				for i := 0; ok; i++ {
+					select {
+					case <-stop2:
+						e.UpdateStatus(true, "", "")
+						return
+					default:
+					}
+					if i%2 == 0 {
+						e.UpdateStatus(false, "NotReady", "request /healthz, got response code is 503"+strings.Repeat(".", i%7))
+					} else {
+						e.UpdateStatus(true, "", "")
+					}
+				}
+			}(fn)
+		}
+		for g := 0; g < 16; g++ {
+			wg2.Add(1)
+			go func() {
+				defer wg2.Done()
+				p := clusters.VerifNewPicker(w.CI, flapNames)
+				for {
+					select {
+					case <-stop2:
+						return
+					default:
+					}
+					p.Pop() //nolint: forwarded or "no ready endpoints", never a panic
+					atomic.AddInt64(&picks, 1)
+				}
+			}()
+		}
+		time.Sleep(time.Duration(min(rc.Race.Millis, 1200)) * time.Millisecond)
+		close(stop2)
+		wg2.Wait()
+	}
 	if e, ok := w.Load(names[2%n]); ok {
 		e.UpdateStatus(true, "", "")
 	}
